@@ -6,6 +6,7 @@ import (
 	"strings"
 
 	"gverif/core"
+	"gverif/engine/aliasx"
 	"gverif/engine/args"
 	"gverif/engine/asmx"
 	"gverif/engine/config"
@@ -18,8 +19,8 @@ import (
 	"gverif/engine/flagx"
 	"gverif/engine/globalx"
 	"gverif/engine/goproto"
-	"gverif/engine/idindex"
 	"gverif/engine/graphinv"
+	"gverif/engine/idindex"
 	"gverif/engine/initx"
 	"gverif/engine/loopidx"
 	"gverif/engine/matargs"
@@ -29,8 +30,10 @@ import (
 	"gverif/engine/overlap"
 	"gverif/engine/paramuse"
 	"gverif/engine/pool"
+	"gverif/engine/rawx"
 	"gverif/engine/sibx"
 	"gverif/engine/stride"
+	"gverif/engine/swapx"
 	"gverif/engine/twin"
 	"gverif/engine/worksize"
 )
@@ -158,8 +161,21 @@ func init() {
 			res.Merge(fl)
 			bz := flagx.RunBetaZero(def, core.Pkgs("./blas/gonum"))
 			bz.Floor("beta_zero_arms_storing_an_operand", 110)
+			bz.Floor("quick_return_guards_on_alpha", 30)
+			bz.Floor("quick_return_guards_on_k", 10)
 			res.Merge(bz)
 			res.Merge(flagx.RunBetaZero(core.Config{Tags: "noasm"}, core.Pkgs("./internal/asm/f64", "./internal/asm/f32")))
+			bs := flagx.RunBetaScale(def, core.Pkgs("./blas/gonum"))
+			bs.Floor("beta_scaling_sites", 100)
+			res.Merge(bs)
+			for _, c := range []core.Config{{}, {Tags: "noasm"}} {
+				bk := flagx.RunBetaScale(c, core.Pkgs("./internal/asm/f64", "./internal/asm/f32"))
+				bk.Floor("beta_scaling_sites", 8)
+				res.Merge(bk)
+			}
+			ud := flagx.RunUnitDiag(def, core.Pkgs("./blas/gonum"))
+			ud.Floor("diagonal_reads", 100)
+			res.Merge(ud)
 			ni := flagx.RunNegInc(def, core.Pkgs("./blas/gonum"))
 			ni.Floor("routines_returning_at_once_for_negative_increments", 12)
 			ni.Floor("increment_parameters_forwarded_to_quick_returning_routines", 2)
@@ -224,6 +240,12 @@ func lapackProp(self, other, what string) *property {
 			ok := okflow.Run(def, core.Scope{Patterns: []string{"./lapack/gonum"}, Files: sc.Files})
 			ok.Floor("status_call_sites", 10)
 			res.Merge(ok)
+			us := flagx.RunUnset(def, core.Pkgs("./lapack/gonum"))
+			us.Floor("flag_variable_uses", 3)
+			res.Merge(us)
+			ud := flagx.RunUnitDiag(def, core.Pkgs("./lapack/gonum"))
+			ud.Floor("diagonal_reads", 8)
+			res.Merge(ud)
 			gd := flagx.RunGuardOperand(def, core.Pkgs("./lapack/gonum"))
 			gd.Floor("count_guarded_call_blocks", 18)
 			res.Merge(gd)
@@ -303,6 +325,9 @@ func init() {
 		explanation: "Decides structural necessary conditions of C04 for every function of mat: TWIN.sync — the receiver-sizing pairs reuseAsNonZeroed/reuseAsZeroed ('must be kept in sync') of six types differ only by use/useZeroed and the final Zero(); TWIN.bounds — the bounds and default element accessors check the same guards and address the same Data element on every access path; CONFIG — mat type-checks with one API under bounds/safe; STRIDE — every Data[...] index/slice and every (Data, Stride) pair handed to blas64/lapack64 uses the stride of the same matrix (views with Stride > Cols are addressed with their own stride everywhere). NILRECV — no call in mat passes a constant nil pointer to a function that dereferences it on every path (found and repaired: Cholesky.SymRankOne panicked for every Vector that is not a RawVectorer — a result depending on the operand's concrete type). Does not decide agreement of specialised dispatch arms with the generic At loop.",
 		assumptions: commonAssumptions,
 		run: func(tier string, res *core.Result) {
+			sw := swapx.Run(def, core.Pkgs("./mat"))
+			sw.Floor("swaps_guarded_by_a_comparison_of_two_variables", 4)
+			res.Merge(sw)
 			pu := paramuse.Run(def, core.Pkgs("./mat"))
 			pu.Floor("parameters", 550)
 			res.Merge(pu)
@@ -367,6 +392,11 @@ func init() {
 			am.Floor("byte_scalings", 40)
 			res.Merge(am)
 
+			for _, c := range []core.Config{{}, {Tags: "noasm"}} {
+				bk := flagx.RunBetaScale(c, core.Pkgs("./internal/asm/f64", "./internal/asm/f32"))
+				bk.Floor("beta_scaling_sites", 8)
+				res.Merge(bk)
+			}
 			sg := sibx.Run()
 			sg.Floor("sibling_function_pairs", 35)
 			sg.Floor("exit_guards", 15)
@@ -409,7 +439,13 @@ func init() {
 			fx.Floor("condition_estimator_calls", 7)
 			fx.Floor("condition_sinks", 9)
 			fx.Floor("estimates_in_factorizing_functions", 6)
+			fx.Floor("shape_invariants_of_factorization_types", 2)
+			fx.Floor("loops_between_the_two_dimensions", 2)
+			fx.Floor("field_resizes", 6)
 			res.Merge(fx)
+			us := flagx.RunUnset(def, core.Pkgs("./mat"))
+			us.Floor("flag_variable_uses", 6)
+			res.Merge(us)
 			nr := nilrecv.Run(def, core.Scope{Patterns: []string{"./mat"}, Files: func(rel string) bool { return anch[rel] }})
 			nr.Floor("pointer_args", 200)
 			res.Merge(nr)
@@ -473,6 +509,7 @@ func init() {
 			g.Floor("channels_with_close_protocol", 10)
 			g.Floor("serial_concurrent_sibling_pairs", 4)
 			res.Merge(g)
+			res.Merge(rawx.Run(def, core.Pkgs(concurrentPkgs...)))
 			lk := goproto.RunLocks(def, core.Pkgs(concurrentPkgs...))
 			lk.Floor("lock_statements", 3)
 			lk.Floor("once_do_sites", 1)
@@ -503,6 +540,9 @@ func init() {
 			g := goproto.Run(def, core.Pkgs("./optimize"))
 			g.Floor("go_statements", 3)
 			res.Merge(g)
+			al := aliasx.Run(def, core.Pkgs("./optimize/..."))
+			al.Floor("state_slice_field_assignments", 15)
+			res.Merge(al)
 			lm := initx.RunLimits(def)
 			lm.Floor("stats_settings_comparisons", 4)
 			res.Merge(lm)
@@ -519,6 +559,9 @@ func init() {
 		explanation: "Decides the representation mechanisms behind C12 for the 8 map-backed graph types of graph/simple and graph/multi, uid.Set and the 30 iterator types of graph/iterator, in both the default and the safe build: GRAPHINV.converse — every adjacency mutation is translated into an effect (ADD/DEL/DELROW/DELCOL/PRUNE on from/to or edges/lines, through local aliases and map-literal arms; an untranslatable mutation fails the check as an unrecognised idiom) and each method's effect set is closed under the converse, so forward and reverse adjacency stay mirror images; GRAPHINV.remove — RemoveNode deletes the key, the row and the column of every relation and releases the ID; GRAPHINV.ids — a new node key is followed on all paths by Use, Release is preceded by the key's deletion, line insertions are followed by Use on the line pool; GRAPHINV.uid — in uid.Set every update of used executes together with the dual update of free ('fresh IDs never collide with live ones'); GRAPHINV.iter — every path of Next() that can return true advances a cursor field read by Len(); TWIN.sibstate — each iterator method and the corresponding method of its Weighted sibling type (all build configurations' files) make the same assignments to the cursor/length/current fields; CONFIG — graph/iterator, simple and multi type-check with one API under safe; GRAPHINV.panicorder — in the 22 container methods of graph/simple and graph/multi that panic explicitly, none of the 26 panics is reachable after a write to the receiver's state ('documented panics leave the graph unchanged'); GRAPHINV.absent — the dense-matrix graphs compare a weight with the absent marker only through the NaN-aware isSame, so From/To/HasEdge*/Edges agree for every absent value; GRAPHINV.iterreset — a value-receiver method that consumes the iterator held by its receiver resets it before returning. Does NOT decide the dense-matrix graphs' index arithmetic, iterator Reset implementations, panics raised inside callees, Undirect/Copy adapters.",
 		assumptions: commonAssumptions,
 		run: func(tier string, res *core.Result) {
+			sw := swapx.Run(def, core.Pkgs("./graph/simple", "./graph/multi", "./graph/iterator", "./graph/set/uid"))
+			sw.Floor("swaps_guarded_by_a_comparison_of_two_variables", 4)
+			res.Merge(sw)
 			pu := paramuse.Run(def, core.Pkgs("./graph/simple", "./graph/multi", "./graph/iterator", "./graph/set/uid"))
 			pu.Floor("parameters", 220)
 			res.Merge(pu)
@@ -632,6 +675,9 @@ func init() {
 		explanation: "Decides the table-level clauses of C18 by exact evaluation of literals in the source (no gonum code runs): CONST.stencil — each of the six predefined finite-difference formulas satisfies the moment conditions sum c_i*loc_i^k = k!*[k==Derivative] for all k below its point count, in exact rationals ('each formula differentiates polynomials up to its order exactly'); CONST.legendre — for every tabulated n < 101: rows have exactly the shape tabulated() indexes, each node is a root of P_n to 1e-19 (320-bit arithmetic), each weight equals 2/((1-x^2)P_n'(x)^2) to 1e-19, is positive, and the weights sum to 2; CONST.hermite — 200 rows with n entries, symmetric increasing nodes, positive weights summing to sqrt(pi); GOPROTO.sibling on diff/fd (OriginKnown honoured by serial and concurrent paths alike). Found and repaired: the n=26 Legendre weight row. Does NOT decide the Bogaert asymptotic branch (n > 100), Simpson/Romberg weights, interpolants or dual-number algebra.",
 		assumptions: commonAssumptions,
 		run: func(tier string, res *core.Result) {
+			sw := swapx.Run(def, core.Pkgs("./diff/fd", "./num/...", "./integrate/...", "./interp"))
+			sw.Floor("swaps_guarded_by_a_comparison_of_two_variables", 2)
+			res.Merge(sw)
 			pu := paramuse.Run(def, core.Pkgs("./diff/fd", "./num/...", "./integrate/...", "./interp"))
 			pu.Floor("parameters", 290)
 			res.Merge(pu)
@@ -642,6 +688,7 @@ func init() {
 			c.Floor("legendre_nodes_checked", 2500)
 			c.Floor("hermite_rows", 200)
 			res.Merge(c)
+			res.Merge(rawx.Run(def, core.Pkgs("./diff/fd", "./integrate/...", "./interp", "./num/...")))
 			g := goproto.Run(def, core.Pkgs("./diff/fd", "./integrate/quad"))
 			g.Floor("serial_concurrent_sibling_pairs", 4)
 			res.Merge(g)
@@ -678,6 +725,18 @@ func dump(argv []string) {
 		res = flagx.RunNegInc(def, core.Pkgs(argv[1:]...))
 	case "betazero":
 		res = flagx.RunBetaZero(def, core.Pkgs(argv[1:]...))
+	case "unitdiag":
+		res = flagx.RunUnitDiag(def, core.Pkgs(argv[1:]...))
+	case "swap":
+		res = swapx.Run(def, core.Pkgs(argv[1:]...))
+	case "raw":
+		res = rawx.Run(def, core.Pkgs(argv[1:]...))
+	case "alias":
+		res = aliasx.Run(def, core.Pkgs(argv[1:]...))
+	case "unset":
+		res = flagx.RunUnset(def, core.Pkgs(argv[1:]...))
+	case "betascale":
+		res = flagx.RunBetaScale(def, core.Pkgs(argv[1:]...))
 	case "guardop":
 		res = flagx.RunGuardOperand(def, core.Pkgs(argv[1:]...))
 	case "decodeorder":
